@@ -480,8 +480,6 @@ Qed.
 
 (** ---------- reading is not left paused ---------- *)
 
-Definition net_paused (b : bool) (l : list ev) : bool :=
-  fold_left (fun b e => match e with ENetPause => true | ENetResume => false | _ => b end) l b.
 
 Lemma paused_run l : forall m m', mon_run m l = Some m' -> m_paused m' = net_paused (m_paused m) l.
 Proof.
